@@ -703,9 +703,9 @@ func genC10(o *out, r *Rng) {
 		} else {
 			o.add(E2E(src.Canon(), Opts{Opt: r.P(50), Sw: defSw}))
 		}
-		if r.P(25) { // the whole stretch on ONE source line, line markers on: every command is still there, in order
+		if i%4 == 0 { // the whole stretch on ONE source line, line markers on: every command is still there, in order (no random draw here: the stream of the other cases stays as it was)
 			o.dir("EXPECTLINES", Hex(strings.Join(want, "\n")))
-			o.add(E2E(src.Canon(), Opts{Opt: r.P(50), Sw: defSw, LmPath: "src/one line.pory"}))
+			o.add(E2E(src.Canon(), Opts{Opt: i%8 == 0, Sw: defSw, LmPath: "src/one line.pory"}))
 		}
 	}
 	// an inline string argument is replaced by the label of ITS text: typed and plain strings whose type + content coincide as strings
